@@ -51,10 +51,15 @@ def sharing_forms_model(rng, target):
     {"name": "two", "params": ["r", "A", "B"], "expr": ["+", ["call", "core", [["var", "r"], ["var", "A"], ["num", 0.3]]], ["call", "core", [["var", "r"], ["var", "B"], ["num", 0.7]]]], "breaks": []},
     {"name": "mix", "params": ["rij", "A"], "expr": ["-", ["call", "two", [["var", "rij"], ["var", "A"], ["num", 2.0]]], ["call", "core", [["*", ["num", 2.0], ["var", "rij"]], ["num", 5.0], ["var", "A"]]]], "breaks": []},
   ]
-  if rng.random() < 0.5:
-    # formulas spelling their parameters in another case than the signature (exprtk symbols are case-insensitive)
+  if rng.random() < 0.75:
+    # formulas spelling their parameters in another case than the signature (exprtk symbols are case-insensitive):
+    # every occurrence, so that a binding keyed on the spelling has nothing to hold on to
+    def swap(e):
+      if isinstance(e, list) and e and e[0] == "var":
+        return ["var", e[1].swapcase()]
+      return [swap(x) if isinstance(x, list) else x for x in e] if isinstance(e, list) else e
     for f in forms:
-      f["expr"] = spec.recase_vars(f["expr"], rng)
+      f["expr"] = swap(f["expr"])
   nr = 8 if target == "DLPOLY" else rng.choice([5, 9])
   pair = []
   k = 0
